@@ -292,8 +292,11 @@ def run_script(o: Obl, tmp: Path) -> Result:
 
 # ---------------------------------------------------------------- replay
 
-def do_replay(replay: str, kwargs: dict) -> tuple[bool | None, str]:
-    """Run replay `module:function(**kwargs)` on the unmodified library with REAL lxml."""
+def do_replay(replay: str, kwargs: dict, harness_message: str = "") -> tuple[bool | None, str]:
+    """Run replay `module:function(**kwargs)` on the unmodified library with REAL lxml.
+    If the replay itself dies with an exception raised INSIDE the library (innermost frame under
+    src/odfdo) and the solver's counterexample was that same exception type, the failure reproduces:
+    the library raises on an input the property quantifies over."""
     mod, fn = replay.split(":")
     env = base_env(False)
     code = (
@@ -304,6 +307,8 @@ def do_replay(replay: str, kwargs: dict) -> tuple[bool | None, str]:
         "    v,d=f(**kw)\n"
         "except Exception as e:\n"
         "    import traceback; v,d=None,'replay raised '+repr(e)+' '+traceback.format_exc()[-600:]\n"
+        "    fr=traceback.extract_tb(e.__traceback__)[-1]\n"
+        "    print('RAISED '+json.dumps({'type':type(e).__name__,'inlib':'/src/odfdo/' in fr.filename.replace(chr(92),'/')}))\n"
         "print('REPLAY '+json.dumps({'violated':v,'detail':str(d)}))\n"
     )
     try:
@@ -311,9 +316,14 @@ def do_replay(replay: str, kwargs: dict) -> tuple[bool | None, str]:
                             capture_output=True, text=True, timeout=300)
     except subprocess.TimeoutExpired:
         return None, "replay timed out"
+    raised = None
     for ln in cp.stdout.splitlines():
+        if ln.startswith("RAISED "):
+            raised = json.loads(ln[7:])
         if ln.startswith("REPLAY "):
             d = json.loads(ln[7:])
+            if d["violated"] is None and raised and raised["inlib"] and raised["type"] in (harness_message or ""):
+                return True, f"the library raises {raised['type']} on real lxml too: " + d["detail"]
             return d["violated"], d["detail"]
     return None, "replay produced nothing: " + (cp.stderr or "")[-400:]
 
@@ -397,7 +407,7 @@ def check_property(pid: str, tier: str, seed: int) -> int:
             reach = bool(r.twin_reached) or r.paths > 0 or r.verdict == "counterexample"
             if r.verdict == "counterexample":
                 replay = o.replay or f"r_{o.module}:{o.func}"
-                v, d = do_replay(replay, r.kwargs)
+                v, d = do_replay(replay, r.kwargs, r.detail)
                 r.replayed, r.replay_detail = v, d[:500]
                 rep_dir.mkdir(parents=True, exist_ok=True)
                 rf = rep_dir / f"{o.name}.json"
@@ -513,7 +523,7 @@ def write_evidence(pid, tier, seed, prop, order, results, finding_state, lines, 
 def replay_file(pid: str, path: str) -> int:
     ensure_venv()
     d = json.loads(Path(path).read_text())
-    v, detail = do_replay(d["replay"], d["kwargs"])
+    v, detail = do_replay(d["replay"], d["kwargs"], d.get("message", ""))
     print(f"replay {d['obligation']} {json.dumps(d['kwargs'])}: violated={v} :: {detail}")
     if v:
         known = load_known()
